@@ -6,6 +6,8 @@ import (
 	"fmt"
 	"io"
 	"net"
+	"os"
+	"path/filepath"
 	"runtime"
 	"strings"
 	"sync"
@@ -1040,6 +1042,20 @@ func TestVerifC27(t *testing.T) {
 	run.Set("yield_point_passes", map[string]int64{c27PointFlush: tot.passFlush, c27PointReg: tot.passReg})
 	if tot.passFlush+tot.passReg == 0 && (!run.Replaying() || !run.Want(0)) {
 		run.Inconclusive("no-mux-yield-point-passed (binary built without -tags verif, or hooks removed)")
+	}
+	if pat := os.Getenv("VERIF_RACE_LOG"); pat != "" {
+		// second opinion only (thorough tier is built with -race): data races are C40's subject, recorded here
+		n := 0
+		files, _ := filepath.Glob(pat + ".*")
+		for _, f := range files {
+			if b, err := os.ReadFile(f); err == nil {
+				n += strings.Count(string(b), "WARNING: DATA RACE")
+			}
+		}
+		run.Set("race_detector_reports", n)
+		if n > 0 {
+			fmt.Printf("VERIF-NOTE: C27 race detector wrote %d report(s) under %s.*\n", n, pat)
+		}
 	}
 	run.Assume("quiescence of package mux is read from a goroutine dump (no goroutine with a frame in internal/mux other than the read loop " +
 		"blocked in the scripted conn and the recorders blocked in Endpoint.Read); capacity of the pending queue taken as 15 (documented constant)")
